@@ -26,11 +26,27 @@ func genSPD(g *vlib.G) {
 		if !m.wolfe {
 			lss = []int{1, 2, 3} // GradientDescent and Newton accept Armijo steps
 		}
-		if strings.HasPrefix(m.name, "CG/") {
-			lss = []int{0, 2, 3} // 0: the CG default (More-Thuente with curvature 0.1)
+		isCG := strings.HasPrefix(m.name, "CG/")
+		if isCG {
+			// 0: the CG default (More-Thuente with curvature 0.1); 4, 5: stringent line searches as the
+			// CG documentation requires; 2, 3: loose ones (curvature 0.9), see "strict" below.
+			lss = []int{0, 2, 3, 4, 5}
 		}
 		for _, ls := range lss {
 			m, ls := m, ls
+			// CG: "The line search should be more stringent compared with those for Newton-like
+			// methods ... setting the gradient constant in the strong Wolfe conditions to a small
+			// value". With the loose defaults of Bisection{} / MoreThuente{} (0.9) CG may stop early
+			// with a line-search Failure; those runs are checked for coherence and counted only.
+			strict := !(isCG && (ls == 2 || ls == 3))
+			// Steepest descent converges linearly and is stopped by the default FunctionConverge
+			// (no decrease of more than 1e-10 in 100 iterations) well before the gradient
+			// threshold: its distance bound is 1e-4 (worst observed 3.9e-6), 1e-6 for the others
+			// (worst observed 3e-8).
+			tol := 1e-6
+			if m.name == "GradientDescent" {
+				tol = 1e-4
+			}
 			g.Case(fmt.Sprintf("%s ls=%s", m.name, lsNames[ls]), func(t *vlib.T) {
 				runs := 0
 				statuses := map[string]int{}
@@ -75,7 +91,11 @@ func genSPD(g *vlib.G) {
 						if traceViol && rel > 1e-9 {
 							fmt.Fprintf(os.Stderr, "SPD %g | %s | %s\n", rel, c.String(), describe(&r))
 						}
-						if !(rel <= 1e-6) {
+						if !(rel <= tol) && !strict {
+							t.Count("spd_cg_loose_linesearch_not_converged", 1)
+							continue
+						}
+						if !(rel <= tol) {
 							report(t, " cfg="+c.String(), "spd-not-converged", nil, "ended %.3g*(1+|x*|) away from the exact minimiser %v [%s] result: %s", rel, o.xstar, c.String(), describe(&r))
 						}
 					}
